@@ -72,10 +72,6 @@ class Model:
         self.evicted = False
         self.reordered = False
 
-    def clone(self):
-        m = Model(self.cap, self.d)
-        return m
-
     def _touch(self, k):
         if next(reversed(self.d)) != k:
             self.reordered = True
@@ -369,12 +365,12 @@ def linearizable(threads, results, before, init, cap, final_items):
 
 
 def in_known_class(case):
-    """Input classes of listed known findings (see known_findings.d/C26.json); none by default."""
+    """Input classes of listed known findings (see known_findings.d/C26.json)."""
     return _known_contains_class(case)
 
 
 def _known_contains_class(case):
-    # F-C26-1: an evicting __setitem__ changes _mapping twice (evicted key out, new key in); __contains__ takes no
+    # F28: an evicting __setitem__ changes _mapping twice (evicted key out, new key in); __contains__ takes no
     # lock, so two membership tests by other threads can see the state between the two changes.
     threads = case["threads"]
     for t, ops in enumerate(threads):
@@ -395,6 +391,8 @@ def _check_conc(case, exclude_known=True):
     n = len(threads)
     if not (2 <= n <= 3 and all(1 <= len(o) <= 3 for o in threads) and 1 <= len(init) <= cap):
         raise core.HarnessError("concurrent case outside the decided domain")
+    if any(k not in CKEYS for k, _ in init) or any(op[1] not in CKEYS for ops in threads for op in ops if len(op) > 1):
+        raise core.HarnessError("concurrent case uses keys outside %r" % CKEYS)
     if exclude_known and in_known_class(case):
         raise core.Excluded()
     cache = st["cls"](cap)
